@@ -112,6 +112,39 @@ static int sweep_file(const std::string &work) {
   D = N; return 0;
 }
 
+// filter histories (engine H): BFS over setLevel(default) / setLevel(module) / unsetLevel(module) / log(module, level) on ONE sink
+// of each kind that lives through the whole history; every log call is judged against the threshold in force at that moment.
+enum FK { F_SETDEF, F_SETMOD, F_UNSET, F_LOG };
+struct FOp { int k, a, b; };
+static int sweep_filterseq(size_t depth) {
+  static const int LV[3] = {1, 4, 6}; static const int LOGLV[4] = {0, 2, 5, 7}; static const char *MOD[2] = {"A", "B"};
+  hx::Explorer<FOp> ex; ex.name = "filter-histories"; ex.deadline_s = hx::deadline_from_env(300);
+  ex.show = [](const FOp &o) { char b[48]; switch (o.k) { case F_SETDEF: snprintf(b, 48, "setLevel(%d)", o.a); break; case F_SETMOD: snprintf(b, 48, "setLevel(%s,%d)", MOD[o.b], o.a); break; case F_UNSET: snprintf(b, 48, "unsetLevel(%s)", MOD[o.b]); break; default: snprintf(b, 48, "log(%s,level%d)", MOD[o.b], o.a); } return std::string(b); };
+  ex.menu = [&](const std::vector<FOp> &) { std::vector<FOp> m; for (int l : LV) m.push_back({F_SETDEF, l, 0}); for (int mo = 0; mo < 2; mo++) { for (int l : LV) m.push_back({F_SETMOD, l, mo}); m.push_back({F_UNSET, 0, mo}); for (int l : LOGLV) m.push_back({F_LOG, l, mo}); } return m; };
+  ex.run = [&](const std::vector<FOp> &h, std::string &viol) {
+    SyncRec s; AsyncRec a; AsyncSink::Config cfg; cfg.buff_size = 256; cfg.buff_min_num = 1; cfg.buff_max_num = 2; cfg.interval = 100; a.setConfig(cfg);
+    const bool with_async = h.size() <= 3;     // the async sink (a thread per evaluation) only on short histories; filtering is base-class code shared by both kinds
+    s.enable(); if (with_async) a.enable(); int def = LOG_LEVEL_MAX, mod[2] = {-1, -1}; size_t want_total = 0; std::string want_async;
+    for (auto &o : h) { if (!viol.empty()) break;
+      switch (o.k) {
+        case F_SETDEF: s.setLevel(o.a); a.setLevel(o.a); def = o.a; break;
+        case F_SETMOD: s.setLevel(MOD[o.b], o.a); a.setLevel(MOD[o.b], o.a); mod[o.b] = o.a; break;
+        case F_UNSET: s.unsetLevel(MOD[o.b]); a.unsetLevel(MOD[o.b]); mod[o.b] = -1; break;
+        case F_LOG: { size_t before = s.recs.size(); char t[16]; snprintf(t, sizeof t, "r%zu", want_total); LogPrintfFunc(MOD[o.b], "fn", "f.cpp", 1, o.a, 0, t);
+          int thr = mod[o.b] >= 0 ? mod[o.b] : def; bool want = o.a <= thr;
+          if (s.recs.size() - before != (want ? 1u : 0u)) viol = std::string(want ? "record-that-passes-the-threshold-not-delivered" : "record-below-the-threshold-delivered") + " (sync sink) threshold=" + std::to_string(thr) + " level=" + std::to_string(o.a);
+          if (want) { want_async += std::string(" ") + MOD[o.b] + " fn() " + t + " -- f.cpp:1\n"; want_total++; } } break; } }
+    s.disable(); if (with_async) a.disable();
+    if (viol.empty() && with_async) { std::string tails; size_t p0 = 0; while (p0 < a.out.size()) { size_t e = a.out.find('\n', p0); if (e == std::string::npos) e = a.out.size() - 1; std::string l = a.out.substr(p0, e - p0 + 1); size_t q = l.find(" fn() "); tails += q == std::string::npos ? "?" + l : l.substr(q >= 2 ? q - 2 : 0); p0 = e + 1; }
+      if (tails != want_async) viol = "async-sink-delivered-a-different-record-sequence-than-the-thresholds-allow got=[" + tails.substr(0, 80) + "] want=[" + want_async.substr(0, 80) + "]"; }
+    // the most recent log call is part of the state: an implementation may remember it (e.g. a per-module threshold cache)
+    // Hidden implementation state (e.g. a threshold cache) may depend on recent calls, so the last three ops are part of the
+    // state key: two histories are merged only if they agree on the thresholds in force AND on their last three operations.
+    std::string tail; for (size_t i = h.size() > 3 ? h.size() - 3 : 0; i < h.size(); i++) { char t[24]; snprintf(t, sizeof t, "%d.%d.%d,", h[i].k, h[i].a, h[i].b); tail += t; }
+    char c[160]; snprintf(c, sizeof c, "def%d A%d B%d|impl def%d n%zu|tail %s", def, mod[0], mod[1], s.default_level_, s.modules_level_.size(), tail.c_str()); return std::string(c); };
+  ex.check_replay_determinism = false; ex.explore(depth); return 0;
+}
+
 // stdout sinks (sync: printf, async: write(1)): fd 1 is redirected into a file for the duration of one record; the line must
 // carry every field intact: level code [+colour], time, thread id, module, function, text (+ truncation mark), file:line
 #include <tbox/log/sync_stdout_sink.h>
@@ -140,6 +173,7 @@ static int sweep_stdout(const std::string &work) {
 
 int main(int argc, char **argv) {
   std::string what = argc > 1 ? argv[1] : "len"; hx::install_crash_reporter("C09-crash");
+  if (what == "filterseq") return sweep_filterseq(argc > 2 ? atoi(argv[2]) : 4);
   if (what == "stdout") { int rc = sweep_stdout(argc > 2 ? argv[2] : "/tmp"); printf("@STAT states=%zu transitions=%zu executions=%zu\n", D, N, N); return rc; }
   int rc = what == "len" ? sweep_len() : what == "filter" ? sweep_filter() : sweep_file(argc > 2 ? argv[2] : "/tmp");
   printf("@STAT states=%zu transitions=%zu executions=%zu\n", D, N, N); return rc;
